@@ -532,6 +532,16 @@ def bvWidthAux (s : Mgr) : Nat → Nid → Option Nat
 
 def Mgr.bvWidth (s : Mgr) (i : Nid) : Option Nat := bvWidthAux s (i + 1) i
 
+/-- `FNode.bv_signed_value()` = `utils.twos_complement(value, width)` (fnode.py:595-599):
+    the value minus `2^width` when the sign bit is set. -/
+def bvSignedValue (v w : Nat) : Int :=
+  if v / 2 ^ (w - 1) % 2 = 1 then (v : Int) - 2 ^ w else v
+
+/-- `FNode.bv_bin_str()`: `width` binary digits, most significant first -/
+def bvBinStr (v : Nat) : Nat → List Char
+  | 0 => []
+  | w + 1 => bvBinStr (v / 2) w ++ [if v % 2 = 1 then '1' else '0']
+
 /-- `FNode.is_constant()` without arguments (fnode.py:145-161). -/
 def isConstantAux (s : Mgr) : Nat → Nid → Bool
   | 0, _ => false
